@@ -66,6 +66,8 @@ def run_impl(cname, arrays, params):
         args.append(Argument("InFieldNames", prods, 1))
     elif cname in BINARY:
         args += [Argument("A", prods[0], 1), Argument("B", prods[1], 1)]
+        if (arrays[0].size + int(numpy.ma.getmaskarray(arrays[1]).sum())) % 2:
+            args.reverse()              # B written before A
     else:
         args.append(Argument("InFieldName", prods[0], 1))
     for k, v in params.items():
